@@ -355,6 +355,12 @@ class StretchyTreeMatcher:
         if base_mappings:
             for mapping in base_mappings:
                 mapping.merge_map_with(use_previous)
+            # A node without children has no later merge that would reject
+            # a binding that disagrees with the previous match
+            base_mappings = [mapping for mapping in base_mappings
+                             if not mapping.has_conflicts()]
+            if not base_mappings:
+                return []
             # base case this runs 0 times because no children
             # find each child of ins_node that matches IN ORDER
             base_sibs = [-1]
